@@ -108,20 +108,25 @@ def fam_chain(tier, rng):
     """constants defined from earlier constants; replacing a use by (expression)"""
     out = []
     n = 1500 if tier == "thorough" else 200
-    L = [num(v) for v in [1, 2, 7, 100, 30000, -3]]
+    L = [num(v) for v in [1, 2, 7, 100, 30000, -3, 40000, 32768]]
     for _ in range(n):
         e1 = bin_(rng.choice(OPS), rng.choice(L), rng.choice(L))
         op2 = rng.choice(OPS)
         other = rng.choice(L)
+        # a use under a sign, inside arithmetic in which the TYPE of the constant shows (a LONG of small magnitude times 400)
+        uop = rng.choice(["neg", "neg", "not"])
+        k = lit("I", rng.choice([7, 400, 3000]))
         # with constants
         b = B()
         main = [b.const("A", "", e1), b.const("B", "", bin_(op2, cref("A"), other)),
-                b.print(cref("A"), cref("B")), b.let(var("X", "D"), bin_("+", cref("B"), cref("A"))), b.print(var("X", "D"))]
+                b.print(cref("A"), cref("B")), b.let(var("X", "D"), bin_("+", cref("B"), cref("A"))), b.print(var("X", "D")),
+                b.print(lit("$", "u"), bin_("*", un(uop, cref("A")), k)), b.print(lit("$", "v"), bin_("*", un(uop, cref("B")), k))]
         out.append({"fam": "chain:const", "prog": prog(main)})
         # the same with every use replaced by its defining expression in parentheses
         b = B()
         eb = bin_(op2, par(e1), other)
-        main = [b.print(par(e1), par(eb)), b.let(var("X", "D"), bin_("+", par(eb), par(e1))), b.print(var("X", "D"))]
+        main = [b.print(par(e1), par(eb)), b.let(var("X", "D"), bin_("+", par(eb), par(e1))), b.print(var("X", "D")),
+                b.print(lit("$", "u"), bin_("*", un(uop, par(e1)), k)), b.print(lit("$", "v"), bin_("*", un(uop, par(eb)), k))]
         out.append({"fam": "chain:inlined", "prog": prog(main)})
     return out
 
